@@ -20,18 +20,19 @@ CORPUS = os.path.join(vlib.TOOLS, "corpus")
 
 
 # ------------------------------------------------------------------------------- proof part (optional)
-def prove_if_present(chk, names):
+def prove_if_present(chk, names, gens=None):
     """Build + audit the Props modules that exist; without any the check is a translation validation."""
     import common
     mods = ["W2c2Verif.Props." + n for n in names
             if os.path.exists(os.path.join(vlib.LEAN, "W2c2Verif", "Props", n + ".lean"))]
     res = {"modules": mods, "driver_ok": True, "build_ok": True, "errors": []}
+    gens = gens or GENS
     if mods:
-        pr = common.prove(chk, mods, GENS)
+        pr = common.prove(chk, mods, gens)
         res.update(pr)
         res["modules"] = mods
     else:
-        g = vlib.regenerate(GENS)
+        g = vlib.regenerate(gens)
         for name, r in g.items():
             if not r["ok"]:
                 res["errors"].append({"kind": "extract-fail", "gen": name, "msg": r["error"]})
@@ -48,8 +49,8 @@ def prove_if_present(chk, names):
 # ------------------------------------------------------------------------------- module specs
 def spec_id(spec):
     if "hex" in spec:
-        return spec.get("id") or ("hex:" + spec["hex"][:24])
-    return "%s:%s:%d%s" % (spec["seed"], spec["profile"], spec["index"], "+core" if spec.get("core_variant") else "")
+        return (spec.get("id") or ("hex:" + spec["hex"][:24])) + ("+nostart" if spec.get("no_start") else "")
+    return "%s:%s:%d%s" % (spec["seed"], spec["profile"], spec["index"], ("+core" if spec.get("core_variant") else "") + ("+nostart" if spec.get("no_start") else ""))
 
 
 def load_module(spec):
@@ -65,12 +66,17 @@ def load_module(spec):
             if e.kind == "func" and bytes(e.name) not in seen:
                 seen.add(bytes(e.name))
                 exports.append((bytes(e.name), e.index))
+        if spec.get("no_start") and m.start is not None:
+            m.start = None
+            b = encode(m)
         return m, b, imp, exports
     m = module_for(spec["seed"], spec["profile"], spec["index"])
     if spec.get("core_variant"):
         meta = m.meta
         m = core_variant(m, m.meta["imports_spec"])
         m.meta = meta
+    if spec.get("no_start"):
+        m.start = None
     if spec.get("rename_exports"):
         # -m collides with exports called f<N> (a recorded finding of C09): use neutral names
         ren = {}
@@ -213,6 +219,9 @@ def e2e_job(job):
                 ent = {"build": [cc, list(copts), san], "diffs": diffs, "info": info, "real": slim(rr)}
                 if rr.instantiate[0] == "build_error":
                     ent["build_error_class"] = classify_build_error(rr.instantiate[1])
+                if job.get("init_dump") and rr.init is not None and rr.init.get("mem_bytes") is not None:
+                    data = rr.init["mem_bytes"]
+                    ent["init_mem_sparse"] = str(len(data)) + "".join("/%d:%s" % (mm.start(), mm.group(0).hex()) for mm in re.finditer(rb"[^\x00]+", data))
                 if job.get("init_dump") and rr.init is not None and v0 is not None:
                     ent["init_diffs"] = init_diffs(m, imp, rr, v0, b)
                 if rr.table is not None and rr.instantiate == ("ok",):
